@@ -319,15 +319,21 @@ def tracker_total(ctx):
             continue
         ev = ctx.evaluate(b)
         bad, n_err = [], 0
-        stack = [ev.ret_term]
+        # walk the ite tree of the result with the path condition; a non-unit leaf is acceptable only on a path where the shape
+        # check failed (is:Err(from_shape(..)) holds): what is returned there (err_of, a converted or re-wrapped error) is irrelevant
+        stack = [(ev.ret_term, False)]
         while stack:
-            t = stack.pop()
+            t, shape_failed = stack.pop()
             if t[0] == 'ite':
-                stack.extend([t[2], t[3]])
-            elif T.is_app(t, 'err_of') and T.is_app(t[2][0], 'from_shape'):
-                n_err += 1
+                c = t[1]
+                is_shape = T.is_app(c, 'is:Err') and T.is_app(c[2][0], 'from_shape')
+                stack.append((t[2], shape_failed or is_shape))
+                stack.append((t[3], shape_failed))
             elif t is T.tup():
                 pass
+            elif shape_failed or any(T.is_app(x, ('payload:Err', 'err_of')) and T.is_app(x[2][0], 'from_shape') for x in T.subterms(t)):
+                # (a value built from the payload of the shape error exists only in the arm where the shape check failed)
+                n_err += 1
             else:
                 bad.append(t)
         ctx.check('C10.tracker_total', A, 'err-exits', not bad, expected='Ok(()) on every path except the shape check of the incoming state', found='value-dependent result(s): ' + '; '.join(show(x)[:120] for x in bad) if bad else '%d shape-check exit(s), otherwise Ok(())' % n_err,
